@@ -137,12 +137,17 @@ func (t *Directive) hasDirLoop(hits map[string]bool) []string {
 			if hits[name] {
 				return []string{t.Name() + "." + a.Name(), name}
 			}
+			// hits is the set of directives on the path being followed. A
+			// directive used twice, on two arguments or by two different
+			// directives, is not a loop so the name is taken out again once
+			// everything reachable from it has been looked at.
 			hits[name] = true
 			if d2, _ := du.Directive.(*Directive); d2 != nil {
 				if path := d2.hasDirLoop(hits); 0 < len(path) {
 					return append([]string{t.Name() + "." + a.Name()}, path...)
 				}
 			}
+			delete(hits, name)
 		}
 	}
 	return nil
